@@ -264,11 +264,19 @@ theorem site_predicates_are_the_selector (s : Sel) :
     out of it ⇒ Destroyed, inside ⇒ passed through, outside ⇒ dropped. -/
 theorem rewrite_eq_spec (m : Item → Bool) (e : Ev) : rewrite m e = Spec.Selector.rewrite m e := by
   cases e with
-  | created r => cases h : m r <;> simp [rewrite, Spec.Selector.rewrite, h, Gen.Selector.createdDestroyedByMatch]
-  | destroyed r => cases h : m r <;> simp [rewrite, Spec.Selector.rewrite, h, Gen.Selector.createdDestroyedByMatch]
+  | created r => cases h : m r <;> simp [rewrite, rewriteBy, Spec.Selector.rewrite, h, Gen.Selector.createdDestroyedByMatch]
+  | destroyed r => cases h : m r <;> simp [rewrite, rewriteBy, Spec.Selector.rewrite, h, Gen.Selector.createdDestroyedByMatch]
   | updated old new =>
     cases h1 : m old <;> cases h2 : m new <;>
-      simp [rewrite, Spec.Selector.rewrite, h1, h2, Gen.Selector.rewriteAct]
+      simp [rewrite, rewriteBy, updPred, Gen.Selector.updatedOldArg, Gen.Selector.updatedNewArg, Spec.Selector.rewrite,
+        h1, h2, Gen.Selector.rewriteAct]
+
+/-- **Obligation C14.tie (match bits).** In the `Updated` branch BOTH versions are judged by the whole selector:
+    `oldMatches := matches(event.Old)`, `newMatches := matches(event.Resource)`, where `matches` is the ID query
+    AND the label queries (`site_predicates_are_the_selector`), each assigned exactly once. -/
+theorem updated_bits_by_whole_selector :
+    Gen.Selector.updatedOldArg = .old ∧ Gen.Selector.updatedNewArg = .resource ∧ Gen.Selector.watchPred = .idAndLabels := by
+  decide
 
 theorem listSel_eq (stg : List Item) (s : Sel) : listSel stg s = sortById (stg.filter s.matches) := rfl
 
@@ -809,6 +817,26 @@ example : filteredLog exStg exSel exHist =
 example : replay [] (bootstrap exStg exSel ++ filteredLog exStg exSel exHist) = [⟨"c", [("env", "prod")], 1⟩] := by
   decide
 example : listSel (run exStg exHist) exSel = [⟨"c", [("env", "prod")], 1⟩] := by decide
+
+/-- seeded change C14-b: "the ID never changes on update", so the NEW version is re-checked against the label
+    queries alone -/
+def labelsOnly (s : Sel) (r : Item) : Bool := queriesMatch s.queries r.labels
+
+/-- a resource whose labels match while its ID does not (`exSel` excludes the ID "d"), updated once -/
+def exOutsideById : List Mut := [.update "d" [("env", "prod"), ("x", "1")]]
+
+/-- **with the new version judged by the label queries alone a resource OUTSIDE the selector enters the view**
+    (kernel-checked): `d` matches the label query but not the ID query; its update is rewritten to Created, the
+    replayed view holds `d`, the filtered List does not — `filtered_watch_is_log_of_filtered_set` fails; judged
+    by the whole selector the event is dropped -/
+theorem new_version_by_labels_only_witness :
+    (log exStg exOutsideById).filterMap (rewriteBy exSel.matches exSel.matches (labelsOnly exSel)) =
+      [.created ⟨"d", [("env", "prod"), ("x", "1")], 4⟩] ∧
+    replay (exStg.filter exSel.matches)
+      ((log exStg exOutsideById).filterMap (rewriteBy exSel.matches exSel.matches (labelsOnly exSel))) =
+      [⟨"a", [("env", "prod")], 1⟩, ⟨"d", [("env", "prod"), ("x", "1")], 4⟩] ∧
+    (run exStg exOutsideById).filter exSel.matches = [⟨"a", [("env", "prod")], 1⟩] ∧
+    (log exStg exOutsideById).filterMap (rewriteBy exSel.matches exSel.matches exSel.matches) = [] := by decide
 
 /-! ### one selector semantics over gRPC (depends on the REGENERATED tables) -/
 
